@@ -5,6 +5,7 @@ package main
 
 import (
 	"fmt"
+	"regexp"
 	"go/constant"
 	"go/token"
 	"go/types"
@@ -64,6 +65,7 @@ type Obligation struct {
 	cmdN   int
 	goal   string
 	parts  []string // the goal split into conjuncts (each proved separately)
+	syntactic int   // conjuncts discharged because they are literally assumed on the path
 	allow  map[string]bool
 	fn     *FnCtx
 	extra  []string // extra assertions (e.g. instantiation hints)
@@ -99,6 +101,7 @@ type epochRec struct {
 }
 
 type State struct {
+	facts     map[string]bool   // formulas assumed on every path into this state (conjuncts, as text)
 	ghostInts map[string]string // ghost counters
 	cells   map[*ssa.Alloc]Val
 	heap    map[string]string
@@ -112,6 +115,10 @@ func (s *State) clone() *State {
 		epochs: append([]epochRec(nil), s.epochs...), reach: s.reach, nextRef: s.nextRef, ghostInts: map[string]string{}}
 	for k, v := range s.ghostInts {
 		n.ghostInts[k] = v
+	}
+	n.facts = make(map[string]bool, len(s.facts))
+	for k := range s.facts {
+		n.facts[k] = true
 	}
 	for k, v := range s.cells {
 		n.cells[k] = v
@@ -166,6 +173,7 @@ type FnCtx struct {
 	retCount int
 	closureOf map[*ssa.Alloc]*ssa.MakeClosure
 	firstIter []string
+	allocOrder map[*ssa.Alloc]int
 	iterMap   map[ssa.Value]string
 	keepTrivial bool
 	ensuresAtSeen map[string]bool
@@ -250,7 +258,19 @@ func (c *FnCtx) assume(st *State, cond string) {
 		return
 	}
 	st.reach = c.define("reach", sBool, and(st.reach, cond))
+	if st.facts == nil {
+		st.facts = map[string]bool{}
+	}
+	for _, p := range splitAnd(cond) {
+		st.facts[canonBound(p)] = true
+	}
 }
+
+var boundRe = regexp.MustCompile(`(q\.[A-Za-z0-9_.]+)!\d+`)
+
+// canonBound drops the uniquifying suffix of bound variables so that two evaluations of the same
+// quantified spec formula compare equal.
+func canonBound(p string) string { return boundRe.ReplaceAllString(p, "$1") }
 
 // obligeAlways records the obligation even when it is syntactically true (structural checks that must be counted).
 func (c *FnCtx) obligeAlways(st *State, kind, anchor string, pos token.Pos, cond, text string, tags []string) *Obligation {
@@ -275,6 +295,11 @@ func (c *FnCtx) oblige(st *State, kind, anchor string, pos token.Pos, cond, text
 	o := &Obligation{ID: c.name + "/" + key, Func: c.name, Kind: kind, Anchor: anchor, Props: props,
 		Text: text, cmdN: len(c.cmds), goal: implies(st.reach, cond), fn: c, allow: map[string]bool{}}
 	for _, p := range splitAnd(cond) {
+		// a conjunct that is literally one of the facts assumed on every path to this point needs no solver
+		if st.facts[canonBound(p)] || st.facts[canonBound(consequent(p))] {
+			o.syntactic++
+			continue
+		}
 		o.parts = append(o.parts, implies(st.reach, p))
 	}
 	if pos.IsValid() {
@@ -1108,4 +1133,28 @@ func splitAnd(cond string) []string {
 		}
 	}
 	return out
+}
+
+// consequent returns b for "(=> a b)" and "" otherwise.
+func consequent(p string) string {
+	if !strings.HasPrefix(p, "(=> ") {
+		return ""
+	}
+	body := p[4 : len(p)-1]
+	d := 0
+	for i := 0; i < len(body); i++ {
+		if body[i] == '(' {
+			d++
+		} else if body[i] == ')' {
+			d--
+		}
+		if d == 0 && (body[i] == ' ' || body[i] == ')') {
+			cut := i
+			if body[i] == ')' {
+				cut = i + 1
+			}
+			return strings.TrimSpace(body[cut:])
+		}
+	}
+	return ""
 }
